@@ -334,6 +334,29 @@ type Prop[C any] struct {
 }
 
 func (p *Prop[C]) exec(c C) (v Verdict) {
+	v = p.exec1(c)
+	if Shrinking() {
+		return v
+	}
+	for _, f := range v {
+		if !strings.Contains(f.Sig, "/harness/") && !strings.Contains(f.Sig, "/harness-") {
+			continue
+		}
+		// A step of the harness itself failed (a dial, a listener, a warm-up
+		// exchange, a write of its own): on a slow or loaded machine that can be
+		// an accident of the moment. The case is run once more; what fails twice
+		// is reported, what does not is counted as inconclusive.
+		time.Sleep(300 * time.Millisecond)
+		v2 := p.exec1(c)
+		if len(v2) == 0 {
+			Inconclusive(p.Name)
+		}
+		return v2
+	}
+	return v
+}
+
+func (p *Prop[C]) exec1(c C) (v Verdict) {
 	defer func() {
 		if r := recover(); r != nil {
 			v = append(v, Failure{Sig: p.ID + "/panic/" + p.Name, Msg: fmt.Sprintf("panic: %v\n%s", r, debug.Stack())})
